@@ -13,7 +13,7 @@ from typing import Any, Dict, List, Optional, Tuple
 
 from mc import core, gen, harness, traces
 from mc.core import Result, Violation
-from mc.props.c06 import ALPHA_FULL, ALPHA_SMALL, cases_for, first_accepted_kind
+from mc.props.c06 import ALPHA_FULL, ALPHA_SMALL, SAME_FAMILY_PROGS, cases_for, first_accepted_kind
 
 DETAILS = ["hash", "repr", "context", "all"]
 VOLATILE_TOP = {"timestamp", "seq", "run_id"}
@@ -37,7 +37,8 @@ def normalise(records: List[dict]) -> List[dict]:
 def observe(real: harness.RealOutcome) -> dict:
     from verif_lib.components import THE_ERROR
 
-    return {"status": real.status, "data": real.data, "ctx": real.ctx, "error": real.error, "index": real.index,
+    return {"status": real.status, "data": real.data, "ctx": {k: (v if isinstance(v, (int, float, str, bool, type(None))) else repr(v)) for k, v in real.ctx.items()},
+            "error": real.error, "index": real.index,
             "is_original_error": (real.exc is THE_ERROR) if real.error == "ValueError" else None,
             "message": str(real.exc) if real.exc is not None else None, "log": real.log, "files": sorted(real.files)}
 
@@ -69,7 +70,18 @@ def first_diff(a: Any, b: Any, path: str = "") -> str:
             if d:
                 return d
         return ""
-    return "" if a == b else f"{path}: {a!r} vs {b!r}"
+    if a is b or a == b or (isinstance(a, float) and isinstance(b, float) and a != a and b != b):
+        return ""
+    return f"{path}: {a!r} vs {b!r}"
+
+
+def exotic_values() -> Dict[str, Any]:
+    """Unusual-but-legal context values that nothing in the pipeline reads: a numpy array (ambiguous truth value, element-wise ==)
+    and an object whose comparison / truth / len / iteration hooks raise."""
+    import numpy as np
+    from verif_lib.components import Trip
+
+    return {"arr": np.array([1.0, 2.0, 3.0]), "trip": Trip(), "nan": float("nan")}
 
 
 def _worker_obs(chunk):
@@ -78,7 +90,13 @@ def _worker_obs(chunk):
     out = {"n": 0, "viol": [], "outcomes": {}, "nontrivial": set()}
     for prog, details in chunk:
         dk = first_accepted_kind(prog)
-        for ctx in cases_for(prog):
+        ctxs = cases_for(prog)
+        if len(prog) <= 2 or prog in SAME_FAMILY_PROGS:
+            ctxs = ctxs + [{**ctxs[-1], "__exotic__": True}]
+        for ctx in ctxs:
+            if ctx.get("__exotic__"):
+                ctx = {k: v for k, v in ctx.items() if k != "__exotic__"}
+                ctx.update(exotic_values())
             try:
                 base = untraced(prog, dk, ctx, scratch)
             except Exception:
@@ -92,7 +110,7 @@ def _worker_obs(chunk):
                 if len(records) >= 3:
                     out["nontrivial"].add(core.sha([prog, ctx, detail]))
                 b2 = dict(base)
-                if tr != b2:
+                if first_diff(b2, tr):
                     out["viol"].append(("traced-run-differs-from-untraced",
                                         f"{list(prog)} ctx={ctx} detail={detail}: {first_diff(b2, tr)}",
                                         {"kind": "obs", "prog": list(prog), "ctx": ctx, "detail": detail}))
@@ -227,6 +245,7 @@ def check(tier: str, seed: int) -> Result:
     else:
         progs = gen.programs(ALPHA_FULL, [1, 2, 3])
         dets = lambda i: DETAILS  # noqa: E731
+    progs = list(progs) + list(SAME_FAMILY_PROGS)
     jobs = [(p, dets(i)) for i, p in enumerate(sorted(set(progs)))]
     jobs = core.seeded_order(jobs, seed)
     viols: List[Violation] = []
@@ -275,7 +294,7 @@ def replay(case) -> List[Violation]:
         return [Violation(s, m, c) for s, m, c in o["viol"]]
     if case["kind"] == "obs":
         o = _worker_obs([(tuple(case["prog"]), [case["detail"]])])
-        return [Violation(s, m, c) for s, m, c in o["viol"] if c["ctx"] == case["ctx"]]
+        return [Violation(s, m, c) for s, m, c in o["viol"]][:1]
     a, b = (tuple(case["a"][0]), case["a"][1]), (tuple(case["b"][0]), case["b"][1])
     o = _worker_hist([(a, b, case["detail"], case["reuse"])])
     return [Violation(s, m, c) for s, m, c, _ in o["viol"]]
